@@ -25,7 +25,10 @@ EXTENDS Integers, Sequences, FiniteSets, TLC
 CONSTANTS MaxSeq,     \* number of writes
           MaxCrash,   \* number of crashes
           Guard,      \* TRUE: retention respects unflushedFrom (repaired code)
-          Tiny        \* TRUE: every write fills the memory table (switch + background flush of the immutable tables)
+          Tiny,       \* TRUE: every write fills the memory table (switch + background flush of the immutable tables, at once)
+          Queued      \* TRUE: a write may fill the table (a large value): the table is queued for the background flush, which runs
+                      \* as a step of its own (the harness parks the goroutine at sm.flush.begin) - writes made in between go to
+                      \* the SAME log file as the queued tables' entries but live in the new active table
 
 VARIABLES
   files,    \* log files in name order, each a set of sequence numbers (contiguous); the last one is current while up
@@ -34,11 +37,16 @@ VARIABLES
   tab,      \* sequence numbers stored in table files
   mnext,    \* MemTable.nextSeqNum of the active table
   uf,       \* WAL.unflushedFrom (0 = not tracked)
+  imq,      \* Queued: immutable tables waiting for the flush, oldest first, each [e: entries, n: its nextSeqNum]
+  sig,      \* Queued: a signal is buffered in bgFlushCh (capacity 1)
+  busy,     \* Queued: the background goroutine has taken a signal and stands at the start of FlushMemTables
+  bigs,     \* Queued: the entries whose value fills a table
+  afull,    \* Queued: the active table is full (the next write switches it whatever its size)
   ack,      \* highest sequence number acknowledged by the replication client in this life (0 none)
   next,     \* next sequence number of the log
   up, crashes
 
-vars == <<files, torn, mem, tab, mnext, uf, ack, next, up, crashes>>
+vars == <<files, torn, mem, tab, mnext, uf, imq, sig, busy, bigs, afull, ack, next, up, crashes>>
 
 Max(S) == IF S = {} THEN 0 ELSE CHOOSE x \in S : \A y \in S : x >= y
 AllLogged == UNION {files[i] : i \in 1..Len(files)}
@@ -47,7 +55,15 @@ Bump(n, s) == IF s > n THEN s + 1 ELSE n            \* MemTable.Put / Delete / r
 RECURSIVE Replayed(_, _)
 Replayed(n, S) == IF S = {} THEN n ELSE LET s == CHOOSE x \in S : \A y \in S : x <= y IN Replayed(Bump(n, s), S \ {s})
 
+\* the tables recovery builds from the logged entries S: a table is closed behind an entry that fills it
+RECURSIVE SplitT(_, _, _)
+SplitT(S, cur, acc) ==
+  IF S = {} THEN (IF cur = {} THEN acc ELSE Append(acc, cur))
+  ELSE LET s == CHOOSE x \in S : \A y \in S : x <= y
+       IN IF s \in bigs THEN SplitT(S \ {s}, {}, Append(acc, cur \cup {s})) ELSE SplitT(S \ {s}, cur \cup {s}, acc)
+
 Init == /\ files = <<{}>> /\ torn = FALSE /\ mem = {} /\ tab = {} /\ mnext = 0 /\ uf = 1 /\ ack = 0 /\ next = 1
+        /\ imq = <<>> /\ sig = FALSE /\ busy = FALSE /\ bigs = {} /\ afull = FALSE
         /\ up = TRUE /\ crashes = 0
 
 \* FlushMemTables as seen from the log: a new current file; everything the flushed tables hold is in table files;
@@ -56,8 +72,9 @@ FlushTo(n) == IF n > 1 /\ n - 1 > uf THEN n - 1 ELSE uf
 
 \* Manager.Put, synchronous logging: appended to the current file, synced, inserted, acknowledged.
 \* Tiny: the table is full -> scheduleFlush switches it, the background flush rotates the log and writes the table out
+Queue == UNION {imq[i].e : i \in 1..Len(imq)}
 Put ==
-  /\ up /\ next <= MaxSeq
+  /\ up /\ next <= MaxSeq /\ ~Queued
   /\ LET s == next
          n2 == Bump(mnext, s)
      IN /\ next' = s + 1
@@ -70,15 +87,43 @@ Put ==
            ELSE /\ files' = [files EXCEPT ![Len(files)] = @ \cup {s}]
                 /\ mem' = mem \cup {s} /\ mnext' = n2
                 /\ UNCHANGED <<tab, uf>>
-  /\ UNCHANGED <<torn, ack, up, crashes>>
+  /\ UNCHANGED <<torn, ack, up, crashes, imq, sig, busy, bigs, afull>>
+
+\* Queued mode.  big: the value fills the table - scheduleFlush switches it (it joins the queue) and signals the background
+\* goroutine: an idle goroutine takes the signal at once (busy), otherwise the signal is buffered if the buffer is empty
+PutQ(big) ==
+  /\ up /\ next <= MaxSeq /\ Queued
+  /\ LET s == next
+         n2 == Bump(mnext, s)
+     IN /\ next' = s + 1
+        /\ files' = [files EXCEPT ![Len(files)] = @ \cup {s}]
+        /\ bigs' = IF big THEN bigs \cup {s} ELSE bigs
+        /\ IF big \/ afull
+           THEN /\ imq' = Append(imq, [e |-> mem \cup {s}, n |-> n2]) /\ mem' = {} /\ mnext' = 0 /\ afull' = FALSE
+                /\ IF busy THEN sig' = TRUE /\ busy' = busy ELSE busy' = TRUE /\ sig' = sig
+           ELSE /\ mem' = mem \cup {s} /\ mnext' = n2 /\ UNCHANGED <<imq, sig, busy, afull>>
+  /\ UNCHANGED <<torn, tab, uf, ack, up, crashes>>
+
+\* FlushMemTables, run by the background goroutine that stood at its start: the queued tables if there are any, else the active
+\* table in place; a buffered signal makes the goroutine start over at once
+BgRun ==
+  /\ up /\ Queued /\ busy
+  /\ IF imq # <<>>
+     THEN /\ files' = Append(files, {}) /\ tab' = tab \cup Queue /\ uf' = FlushTo(imq[Len(imq)].n) /\ imq' = <<>>
+     ELSE IF mem # {}
+          THEN /\ files' = Append(files, {}) /\ tab' = tab \cup mem /\ uf' = FlushTo(mnext) /\ UNCHANGED imq
+          ELSE UNCHANGED <<files, tab, uf, imq>>
+  /\ IF sig THEN sig' = FALSE /\ busy' = TRUE ELSE busy' = FALSE /\ sig' = FALSE
+  /\ UNCHANGED <<torn, mem, mnext, ack, next, up, crashes, bigs, afull>>
 
 \* EngineFacade.FlushImMemTables with no immutable table: the active table is written out in place (and stays active)
 Flush ==
-  /\ up /\ ~Tiny /\ mem # {}
+  /\ up /\ ~Tiny /\ ~busy /\ (mem # {} \/ imq # <<>>)
   /\ files' = Append(files, {})
-  /\ tab' = tab \cup mem
-  /\ uf' = FlushTo(mnext)
-  /\ UNCHANGED <<torn, mem, mnext, ack, next, up, crashes>>
+  /\ IF imq # <<>>                          \* (tables recovered from the log wait in the queue without a signal)
+     THEN tab' = tab \cup Queue /\ uf' = FlushTo(imq[Len(imq)].n) /\ imq' = <<>>
+     ELSE tab' = tab \cup mem /\ uf' = FlushTo(mnext) /\ UNCHANGED imq
+  /\ UNCHANGED <<torn, mem, mnext, ack, next, up, crashes, sig, busy, bigs, afull>>
 
 \* Acknowledge(n) from a replication client that has received everything up to n, followed by the retention pass
 Deletable(i, n) == /\ i < Len(files)                       \* never the current file
@@ -92,7 +137,7 @@ Ack(n) ==
   /\ up /\ n \in 1..(next - 1) /\ n > ack
   /\ ack' = n
   /\ files' = Keep(n)
-  /\ UNCHANGED <<torn, mem, tab, mnext, uf, next, up, crashes>>
+  /\ UNCHANGED <<torn, mem, tab, mnext, uf, next, up, crashes, imq, sig, busy, bigs, afull>>
 
 \* the process dies; t: inside an append (a partial record is behind the last complete one).  Everything written was
 \* synced (synchronous logging), so no entry is lost from the files
@@ -100,28 +145,35 @@ Die(t) ==
   /\ up /\ crashes < MaxCrash
   /\ up' = FALSE /\ crashes' = crashes + 1
   /\ torn' = t /\ mem' = {} /\ mnext' = 0 /\ ack' = 0
-  /\ UNCHANGED <<files, tab, uf, next>>
+  /\ imq' = <<>> /\ sig' = FALSE /\ busy' = FALSE /\ afull' = FALSE
+  /\ UNCHANGED <<files, tab, uf, next, bigs>>
 
 \* NewManager: the newest file is reused unless it is damaged; every file is replayed into one memory table
 Recover ==
   /\ ~up /\ up' = TRUE
   /\ files' = IF torn THEN Append(files, {}) ELSE files
   /\ torn' = FALSE
-  /\ mem' = AllLogged
-  \* Tiny: recovery starts a new table for every entry; the last one becomes the active table
-  /\ mnext' = IF Tiny THEN Bump(0, Max(AllLogged)) ELSE Replayed(0, AllLogged)
+  \* memtable.RecoverFromWAL starts a new table when the current one is full; the last table becomes the active one, the others
+  \* wait in the immutable list (nothing signals the background flush).  Tiny: one table per entry
+  /\ LET T == SplitT(AllLogged, {}, <<>>)
+     IN IF Queued /\ Len(T) > 0
+        THEN /\ imq' = [i \in 1..(Len(T) - 1) |-> [e |-> T[i], n |-> Replayed(0, T[i])]]
+             /\ mem' = T[Len(T)] /\ mnext' = Replayed(0, T[Len(T)])
+             /\ afull' = (Max(T[Len(T)]) \in bigs)
+        ELSE /\ mem' = AllLogged /\ UNCHANGED <<imq, afull>>
+             /\ mnext' = IF Tiny THEN Bump(0, Max(AllLogged)) ELSE Replayed(0, AllLogged)
   \* the numbering continues from what the LOG holds (kevo keeps no counter elsewhere)
   /\ next' = Max(AllLogged) + 1
   /\ uf' = 1
-  /\ UNCHANGED <<tab, ack, crashes>>
+  /\ UNCHANGED <<tab, ack, crashes, sig, busy, bigs>>
 
-Next == Put \/ Flush \/ (\E n \in 1..MaxSeq : Ack(n)) \/ (\E t \in BOOLEAN : Die(t)) \/ Recover
+Next == Put \/ (\E big \in BOOLEAN : PutQ(big)) \/ BgRun \/ Flush \/ (\E n \in 1..MaxSeq : Ack(n)) \/ (\E t \in BOOLEAN : Die(t)) \/ Recover
 Spec == Init /\ [][Next]_vars
 
 -----------------------------------------------------------------------------
 Written == 1..(next - 1)
 \* every acknowledged write is readable while up ...
-ReadableWhileUp == up => Written \subseteq (mem \cup tab)
+ReadableWhileUp == up => Written \subseteq (mem \cup Queue \cup tab)
 \* ... and, at every instant, stored in a table file or in a log file that recovery will replay (C02)
 Recoverable == Written \subseteq (tab \cup AllLogged)
 \* the numbering never goes back (C08 across retention)
